@@ -184,6 +184,11 @@ type Expect struct {
 	ExpiredKey int
 	TTLRule    int  // check: +1 response must be TTL rollback, -1 must not be, 0 n/a
 	Pushed     bool // check: min commit ts pushed in the model
+	// check, no lock on the primary: the transaction's write record of the primary decides the
+	// answer.  Committed != 0: the response must carry this commit version and no rollback action
+	// (the outcome of a transaction is final).  RolledBack: the response must not carry a commit version.
+	Committed  uint64
+	RolledBack bool
 	Changed    bool // model state changed
 	Adversary  []string
 }
@@ -423,6 +428,11 @@ func (m *Model) Apply(s Step, obs *Resp) Expect {
 		default:
 			e.TTLRule = -1
 			w := m.WriteByStart(k, s.Start)
+			if w != nil && w.Kind == KRoll {
+				e.RolledBack = true
+			} else if w != nil {
+				e.Committed = w.Commit
+			}
 			if w == nil && s.RBNE {
 				if m.rollbackKey(k, s.Start) {
 					e.Changed = true
